@@ -530,7 +530,8 @@ class BaseSpectrum:
         # and make it pretty, where applicable.
         if not is_unitless:
             result_unit_str = result.unit.to_string()
-            if 'ph' in result_unit_str or 'PHOTLAM' in result_unit_str:
+            if ('ph' in result_unit_str or 'PHOTLAM' in result_unit_str or
+                    'PHOTNU' in result_unit_str):
                 result = result.to(u.photon / (u.cm**2 * u.s))
             else:  # FLAM
                 result = result.to(u.erg / (u.cm**2 * u.s))
